@@ -184,6 +184,12 @@ class Model:
             aa = a if isinstance(a.ty, SeqT) else self.seq_of_tuple(ex, a, ety, st)
             bb = b if isinstance(b.ty, SeqT) else self.seq_of_tuple(ex, b, ety, st)
             return self.seq_concat(ex, aa, bb, st)
+        if isinstance(op, ast.Sub) and isinstance(a.ty, SetT) and isinstance(b.ty, SetT) and a.ty.elem == b.ty.elem:
+            n = V(fresh("setdiff", Ref), a.ty)
+            y = z3.Const("sdy", a.ty.elem.sort())
+            st.assume(n.term != NONE)
+            st.assume(z3.ForAll([y], set_mem(n.term, y, a.ty.elem) == z3.And(set_mem(a.term, y, a.ty.elem), z3.Not(set_mem(b.term, y, a.ty.elem)))))
+            return n
         if isinstance(op, ast.BitOr) and isinstance(a.ty, SetT):
             items = None
             if b.ty is PY and isinstance(b.py, tuple) and b.py and b.py[0] == "symset":
@@ -1494,6 +1500,20 @@ def _b_set(model, ex, args, kwargs, st, node):
             st.assume(f)
         st.assume(res.term != NONE)
         st.assume(z3.ForAll([x], set_mem(res.term, x, ety) == z3.Exists([j], z3.And(0 <= j, j < n, val.term == x))))
+        return res
+    if isinstance(g.ty, SeqT) or isinstance(g.ty, MapT) or isinstance(g.ty, SetT):
+        # set(seq) / set(mapping) (its keys) / set(set): membership characterised pointwise
+        ety = g.ty.elem if isinstance(g.ty, (SeqT, SetT)) else g.ty.key
+        res = V(fresh("setof", Ref), SetT(ety))
+        x = z3.Const("sx", ety.sort())
+        j = fresh("sj", z3.IntSort())
+        st.assume(res.term != NONE)
+        if isinstance(g.ty, SeqT):
+            st.assume(z3.ForAll([x], set_mem(res.term, x, ety) == z3.Exists([j], z3.And(0 <= j, j < seq_len(g.term), seq_at(g.term, j, ety) == x))))
+        elif isinstance(g.ty, MapT):
+            st.assume(z3.ForAll([x], set_mem(res.term, x, ety) == map_has(g.term, x, ety)))
+        else:
+            st.assume(z3.ForAll([x], set_mem(res.term, x, ety) == set_mem(g.term, x, ety)))
         return res
     raise Unsupported("set(iterable)")
 
